@@ -168,6 +168,10 @@ def tie(tier, seed, replay):
                         break
     race = race_runs(tier, seed)
     mism += race["mismatches"]
+    # real write contention: few big ascent_par! runs (10^4-10^5 keys / tuples, pools of 4-16 threads): rows = distinct tuples, one row per key
+    from .. import par_contention
+    cont = par_contention.run(tier, seed + 7, tag="c05")
+    mism += cont["mismatches"]
     mism = hist["mismatches"] + mism
     return dict(evaluations=sum(len(r["case"]["inputs"]) for r in results) + race["runs"] + hist["evaluations"], distinct_nontrivial=len(distinct) + race["runs"] + hist["distinct"],
                 rule=hist["rule"] + "  FRESH VALUES: (parallel race family: four programs in which 24-64 workers' worth of outer tuples derive the same 200-2500 tuples / lattice keys in the same iteration — fan-in, multi-head, dense reachability, one lattice key per item — under ascent_par! in pools of 2, 8, 16 with seeded perturbation; observables: rows = distinct tuples / keys, contents, inputs untouched) + random programs (3/4 positive, 1/4 stratified with aggregates) x 3 inputs, one of them with caller-supplied duplicate rows; observables: input rows are an unmodified prefix, appended rows are pairwise distinct and absent from the input, contents equal the specification, row counts equal the model's; non-trivial = the run derives something; distinct = distinct (program, input)",
@@ -176,4 +180,4 @@ def tie(tier, seed, replay):
                 mismatches=mism,
                 trusted_base=["FRONT hook + plan translation; generated crates; rows printed in Vec order by the harness"] + hist["trusted_base"],
                 assumptions=["fresh-value random programs run through the serial macro here (their parallel runs are C02's tie); the race family and every second history program run through ascent_par!"] + hist["assumptions"],
-                extra=dict(cases_skipped_model_too_slow=nskipped, **hist["extra"], parallel_race_runs=race["runs"], parallel_race_distribution=dict(by_program=race["by_program"], pools=race["pools"], schedules_per_pool=race["schedules"])))
+                extra=dict(contention_family=dict(rounds=cont["evaluations"], distribution=cont["distribution"]), cases_skipped_model_too_slow=nskipped, **hist["extra"], parallel_race_runs=race["runs"], parallel_race_distribution=dict(by_program=race["by_program"], pools=race["pools"], schedules_per_pool=race["schedules"])))
